@@ -68,6 +68,8 @@ impl FeoxStore {
 
             let value = {
                 let record = entry.value().load(&guard);
+                #[cfg(feoxdb_verif)]
+                crate::verif::sched("range_slot");
                 self.resolve_value_ref(entry.key(), record)
             };
             entries_since_repin += 1;
@@ -85,6 +87,8 @@ impl FeoxStore {
             };
 
             results.push((entry.key().clone(), value));
+            #[cfg(feoxdb_verif)]
+            crate::verif::sched("range_next");
             cursor = entry.next();
         }
 
